@@ -411,8 +411,8 @@ func (g *GcsEmu) handleGcsCopy(ctx context.Context, baseUrl HttpBaseUrl, w http.
 		return
 	}
 	f1 := parts[0]
-	destParts := strings.Split(parts[1], "/o/")
-	if len(parts) != 2 {
+	destParts := strings.SplitN(parts[1], "/o/", 2)
+	if len(destParts) != 2 {
 		g.gapiError(w, http.StatusBadRequest, fmt.Sprintf("Bad rewrite request, expected object/file split: %s", parts[1]))
 		return
 	}
